@@ -254,8 +254,12 @@ def mutate_explicit(rng, lm):
         if b[1]:
             c = rng.randrange(len(b[1]))
             k = rng.randrange(len(b[1][c]))
-            how = rng.choice(["rewire", "permute"])
-            if how == "rewire":
+            how = rng.choice(["rewire", "permute", "swap"])
+            if how == "swap" and len(b[1]) >= 2:
+                c2 = (c + 1 + rng.randrange(len(b[1]) - 1)) % len(b[1])
+                k2 = rng.randrange(len(b[1][c2]))
+                b[1][c][k], b[1][c2][k2] = b[1][c2][k2], b[1][c][k]
+            elif how == "rewire" or how == "swap":
                 b[1][c][k] = (b[1][c][k] + 1 + rng.randrange(max(len(out["points"]) - 1, 1))) % len(out["points"])
             else:
                 r = b[1][c]
@@ -292,10 +296,17 @@ def gen_pair(rng, i):
     """-> (specA, specB, tags)"""
     r = rng.random()
     if r < 0.30:
-        lm, t = meshgen.gen_mesh(rng, max_cells_per_dir=3, fields=False, allow_orphans=True)
+        ka = "P" if rng.random() < 0.3 else "E"
+        kb = "P" if rng.random() < 0.3 else "E"
+        lm, t = meshgen.gen_mesh(rng, max_cells_per_dir=3, fields=False, allow_orphans=(ka + kb == "EE"))
+        if "P" in ka + kb:
+            # start from the canonical (sorted) storage order so that the permuted view and the explicit mesh
+            # are comparable index by index
+            try:
+                lm = c16io.explicit_lm(c16io.build({"k": "P", "lm": lm}))
+            except Exception:  # noqa: BLE001 - sort_points refuses unconnected duplicate points
+                ka = kb = "E"
         lm2, tag = mutate_explicit(rng, lm)
-        ka = "P" if rng.random() < 0.2 else "E"
-        kb = "P" if rng.random() < 0.2 else "E"
         a, b = {"k": ka, "lm": lm}, {"k": kb, "lm": lm2}
         tags = [f"pair-{ka}{kb}", "mut-" + tag, "style-" + str(t["style"])]
     elif r < 0.50:
@@ -422,7 +433,9 @@ def check_pair(ctx, sa, sb, tags, lean_rows):
                 hab, hba, hexp = harmonized_verdicts()
                 hv = hab if order == "a.equals(b)" else hba
                 if hv == "T" and hexp != "T":
-                    cls = "F7" if sa["k"] == "I" else None
+                    # F7 = two image meshes whose origin, spacing and basis DO agree within the tolerance
+                    # (the documented parameter check passes) while the points they generate do not
+                    cls = "F7" if sa["k"] == "I" and params_within(sa, sb, mn[1], mn[0]) else None
                 elif tol_differ:
                     cls = "F14"
                 else:
